@@ -9,9 +9,10 @@
     - [decode_word]: what a contract can read back from the word;
     - [migrate]: [InstanceState::migrate] on the handle-layer model of [Trie/InstanceState.v]
       (generation counter, entry-handle table, iterator table), driven by the [state_updated] flag;
-    - the energy hand-off: [process_receive_result] returns [remaining_energy = host.energy] next to
-      the saved host, [resume_receive] rebuilds the host with the energy it is given and charges
-      nothing before [run_config];
+    - the host across an interrupt: every field of [ReceiveHost] that survives it (energy, activation
+      frames, logs, return value, parameters, self balance, instance state): [interrupt_out] is the
+      [Interrupted] branch of [process_receive_result], [resume_in] is [resume_receive] up to
+      [run_config];
     - [engine_scenario]: the reference for the end-to-end check (harness/c13/src/engine.rs): what the
       generated contract observes after each resume.
 
@@ -100,20 +101,67 @@ Definition migrate (state_updated : bool) (cur : gen) (outer : frame) : frame :=
   else
     (mkI (is_gen oi) false (is_changed oi || is_touched oi), og).
 
-(** ** the energy hand-off *)
-Record receive_host := { rh_energy : N; rh_params : list (list N); rh_frame : frame }.
-Record saved_host := { sv_params : list (list N); sv_frame : frame }.
-(** [process_receive_result], [Interrupted] branch: remaining energy and the saved host *)
-Definition interrupt_out (h : receive_host) : N * saved_host :=
-  (rh_energy h, {| sv_params := rh_params h; sv_frame := rh_frame h |}).
-(** [resume_receive] up to [run_config]: migrate, rebuild the host with the given energy, compute
-    the response word (which may append a parameter); no energy is charged here *)
+(** ** the host across an interrupt
+    [ReceiveHost] = energy + [StateLessReceiveHost] (activation frames left, logs, return value,
+    parameters, receive context, configuration) + instance state.  [process_receive_result]
+    ([Interrupted] branch) returns the remaining energy and the logs of the section next to the saved
+    host ([SavedHost]: the stateless part converted with [From<StateLessReceiveHost<ParameterRef,_>>
+    for StateLessReceiveHost<ParameterVec,_>] + generation, entry mapping, iterators);
+    [resume_receive] rebuilds the host from it. *)
+Definition MAX_ACTIVATION_FRAMES : N := 1024.
+Record receive_host := {
+  rh_energy : N;
+  rh_activation_frames : N;            (* how many more nested calls are allowed *)
+  rh_logs : list (list N);
+  rh_return_value : list N;
+  rh_params : list (list N);
+  rh_self_balance : N;                 (* the field of the receive context that [resume_receive] updates *)
+  rh_frame : frame
+}.
+Record saved_host := {
+  sv_activation_frames : N; sv_logs : list (list N); sv_return_value : list N;
+  sv_params : list (list N); sv_self_balance : N; sv_frame : frame
+}.
+(** remaining energy, logs handed out with the interrupt ([should_clear_logs]: transfers, calls and
+    upgrades hand the logs of the section out and clear them; queries keep them), saved host *)
+Definition interrupt_out (clear_logs : bool) (h : receive_host) : N * list (list N) * saved_host :=
+  (rh_energy h, if clear_logs then rh_logs h else [],
+   {| sv_activation_frames := rh_activation_frames h;
+      sv_logs := if clear_logs then [] else rh_logs h;
+      sv_return_value := rh_return_value h; sv_params := rh_params h;
+      sv_self_balance := rh_self_balance h; sv_frame := rh_frame h |}).
+(** [resume_receive] up to [run_config]: migrate, rebuild the host with the given energy, set the new
+    balance on success, compute the response word (which may append a parameter); nothing is charged *)
 Definition resume_in (s : saved_host) (energy : N) (state_updated : bool) (cur : gen) (r : invoke_response)
   : option (receive_host * N) :=
   match response_word state_updated (sv_params s) r with
-  | Some (w, ps) => Some ({| rh_energy := energy; rh_params := ps; rh_frame := migrate state_updated cur (sv_frame s) |}, w)
+  | Some (w, ps) =>
+      Some ({| rh_energy := energy; rh_activation_frames := sv_activation_frames s; rh_logs := sv_logs s;
+               rh_return_value := sv_return_value s; rh_params := ps;
+               rh_self_balance := match r with RSuccess b _ => b | RFailure _ => sv_self_balance s end;
+               rh_frame := migrate state_updated cur (sv_frame s) |}, w)
   | None => None
   end.
+
+(** [track_call] n times (nested), [None] = "Too many nested functions." *)
+Definition enter_calls (h : receive_host) (n : N) : option receive_host :=
+  if n <=? rh_activation_frames h then
+    Some {| rh_energy := rh_energy h; rh_activation_frames := rh_activation_frames h - n; rh_logs := rh_logs h;
+            rh_return_value := rh_return_value h; rh_params := rh_params h; rh_self_balance := rh_self_balance h;
+            rh_frame := rh_frame h |}
+  else None.
+Definition leave_calls (h : receive_host) (n : N) : receive_host :=
+  {| rh_energy := rh_energy h; rh_activation_frames := rh_activation_frames h + n; rh_logs := rh_logs h;
+     rh_return_value := rh_return_value h; rh_params := rh_params h; rh_self_balance := rh_self_balance h;
+     rh_frame := rh_frame h |}.
+Definition with_frame (h : receive_host) (f : frame) : receive_host :=
+  {| rh_energy := rh_energy h; rh_activation_frames := rh_activation_frames h; rh_logs := rh_logs h;
+     rh_return_value := rh_return_value h; rh_params := rh_params h; rh_self_balance := rh_self_balance h;
+     rh_frame := f |}.
+Definition with_log (h : receive_host) (l : list N) : receive_host :=
+  {| rh_energy := rh_energy h; rh_activation_frames := rh_activation_frames h; rh_logs := rh_logs h ++ [l];
+     rh_return_value := rh_return_value h; rh_params := rh_params h; rh_self_balance := rh_self_balance h;
+     rh_frame := rh_frame h |}.
 
 (** ** the end-to-end scenario of harness/c13/src/engine.rs *)
 Record estep := {
@@ -121,12 +169,15 @@ Record estep := {
   es_upd : bool;                          (* state_updated reported on resume *)
   es_reentrant : option (list N);         (* a re-entrant call writes these bytes to the entry *)
   es_refresh : bool;                      (* the contract replaces its handle by the fresh one *)
-  es_write : option (list N)              (* the contract writes these bytes through the fresh handle *)
+  es_write : option (list N);             (* the contract writes these bytes through the fresh handle *)
+  es_depth : N;                           (* nested calls below the entrypoint when [invoke] is called *)
+  es_recurse : N                          (* nested calls made right after the resume, at that depth *)
 }.
-(** what the contract writes to its return value after each resume: the pushed word; return code
-    and 4 bytes read through the handle obtained before the interrupt; the id of a fresh lookup;
-    return code and 4 bytes read through it *)
-Record eobs := { eo_word : N; eo_rc1 : N; eo_bytes1 : list N; eo_id2 : N; eo_rc2 : N; eo_bytes2 : list N }.
+(** what the contract writes to its return value after each resume: the pushed word; its own balance;
+    the result of the recursion ([u32::MAX] without recursion); return code and 4 bytes read through the
+    handle obtained before the interrupt; the id of a fresh lookup; return code and 4 bytes read
+    through it *)
+Record eobs := { eo_word : N; eo_balance : N; eo_rec : N; eo_rc1 : N; eo_bytes1 : list N; eo_id2 : N; eo_rc2 : N; eo_bytes2 : list N }.
 
 Definition the_key : list N := [107].                   (* "k" *)
 Definition pad4 (v : list N) : list N := firstn 4 (v ++ [0; 0; 0; 0]).
@@ -144,44 +195,72 @@ Definition reentrant_set (f : frame) (w : list N) : frame :=
   let (f1, x) := c_op (CLookup the_key) inner in
   fst (c_op (CWrite (out_id x) 0 w) f1).
 
-Fixpoint scenario_steps (steps : list estep) (f : frame) (e : N) (params : list (list N)) : option (list eobs * frame) :=
+(** outcome of the scenario: the observations, the final entry value and the logs handed out per
+    section (one per interrupt + the final one) - or a trap at a step - or too many interrupts *)
+Inductive eresult :=
+| EDone (obs : list eobs) (final : list N) (log_sections : list (list (list N)))
+| ETrap (step : nat)
+| ETooMany.
+
+Fixpoint scenario_steps (steps : list estep) (i : nat) (h : receive_host) (e : N)
+  : option (list eobs * receive_host * list (list (list N))) + nat :=
   match steps with
-  | [] => Some ([], f)
+  | [] => inl (Some ([], h, []))
   | s :: rest =>
-      let cur := match es_reentrant s with
-                 | Some w => snd (reentrant_set f w)
-                 | None => snd (inner_frame f)
-                 end in
-      match response_word (es_upd s) params (es_resp s) with
-      | None => None
-      | Some (w, params') =>
-          let f1 := migrate (es_upd s) cur f in
-          let (rc1, b1) := read4 f1 e in
-          let (f2, x) := c_op (CLookup the_key) f1 in
-          let e2 := out_id x in
-          let (rc2, b2) := read4 f2 e2 in
-          let e' := if es_refresh s then e2 else e in
-          let f3 := match es_write s with
-                    | Some wr => fst (c_op (CWrite e2 0 wr) f2)
-                    | None => f2
-                    end in
-          match scenario_steps rest f3 e' params' with
-          | Some (os, ff) =>
-              Some ({| eo_word := w; eo_rc1 := rc1; eo_bytes1 := b1; eo_id2 := e2; eo_rc2 := rc2; eo_bytes2 := b2 |} :: os, ff)
-          | None => None
+      (* the contract logs the step number, descends to the depth of the call and invokes *)
+      let h := with_log h [N.of_nat i] in
+      match enter_calls h (es_depth s) with
+      | None => inr i
+      | Some hd =>
+          let '(energy, logs_out, saved) := interrupt_out true hd in
+          let cur := match es_reentrant s with
+                     | Some w => snd (reentrant_set (rh_frame hd) w)
+                     | None => snd (inner_frame (rh_frame hd))
+                     end in
+          match resume_in saved energy (es_upd s) cur (es_resp s) with
+          | None => inl None
+          | Some (hr, w) =>
+              (* recursion right after the resume, still at depth [es_depth] *)
+              match enter_calls hr (es_recurse s) with
+              | None => inr i
+              | Some hrec =>
+                  let h1 := leave_calls (leave_calls hrec (es_recurse s)) (es_depth s) in
+                  let f1 := rh_frame h1 in
+                  let (rc1, b1) := read4 f1 e in
+                  let (f2, x) := c_op (CLookup the_key) f1 in
+                  let e2 := out_id x in
+                  let (rc2, b2) := read4 f2 e2 in
+                  let e' := if es_refresh s then e2 else e in
+                  let f3 := match es_write s with
+                            | Some wr => fst (c_op (CWrite e2 0 wr) f2)
+                            | None => f2
+                            end in
+                  let o := {| eo_word := w; eo_balance := rh_self_balance h1;
+                              eo_rec := if es_recurse s =? 0 then INVALID32 else es_recurse s - 1;
+                              eo_rc1 := rc1; eo_bytes1 := b1; eo_id2 := e2; eo_rc2 := rc2; eo_bytes2 := b2 |} in
+                  match scenario_steps rest (S i) (with_frame h1 f3) e' with
+                  | inl (Some (os, hf, ls)) => inl (Some (o :: os, hf, logs_out :: ls))
+                  | inl None => inl None
+                  | inr j => inr j
+                  end
+              end
           end
       end
   end.
 
-(** the whole receive call: create the entry, write "ABCD", run the steps; result: the
-    observations and the final value of the entry *)
-Definition engine_scenario (steps : list estep) : option (list eobs * list N) :=
+Definition initial_host (balance : N) (f : frame) : receive_host :=
+  {| rh_energy := 0; rh_activation_frames := MAX_ACTIVATION_FRAMES; rh_logs := []; rh_return_value := [];
+     rh_params := [[]]; rh_self_balance := balance; rh_frame := f |}.
+
+(** the whole receive call: create the entry, write "ABCD", run the steps, log [255] *)
+Definition engine_scenario (balance : N) (steps : list estep) : eresult :=
   let (f0, x) := c_op (CCreate the_key) (i_fresh, empty_gen) in
   let e := out_id x in
   let f1 := fst (c_op (CWrite e 0 [65; 66; 67; 68]) f0) in
-  match scenario_steps steps f1 e [[]] with
-  | Some (os, ff) =>
-      let (f2, y) := c_op (CLookup the_key) ff in
-      Some (os, match snd (c_op (CRead (out_id y)) f2) with XBytes v => v | _ => [] end)
-  | None => None
+  match scenario_steps steps O (initial_host balance f1) e with
+  | inl (Some (os, hf, ls)) =>
+      let (f2, y) := c_op (CLookup the_key) (rh_frame hf) in
+      EDone os (match snd (c_op (CRead (out_id y)) f2) with XBytes v => v | _ => [] end) (ls ++ [rh_logs hf ++ [[255]]])
+  | inl None => ETooMany
+  | inr j => ETrap j
   end.
